@@ -89,7 +89,7 @@ Proof.
     + (* Mul *)
       assert (Generic :
         strip_us (desugar (SBin TMultiply (if is_power e1 || is_mul e1 then echo_tree Plain e1 else echo_tree Liberal e1)
-                                (if is_power e2 || is_mul e2 then echo_tree Plain e2 else echo_tree Liberal e2)))
+                                (if is_power e2 || bare_mul e1 e2 then echo_tree Plain e2 else echo_tree Liberal e2)))
         = strip_us (EBin Mul (erase e1) (erase e2))).
       { cbn [desugar binop_of strip_us]. rewrite (sdesugar_choice _ _ _ _ _ Da), (sdesugar_choice _ _ _ _ _ Db). reflexivity. }
       destruct e1; try exact Generic. destruct e2; try exact Generic;
